@@ -187,6 +187,8 @@ def exec_case(cid, s, m):
          "prerun": [list(x) for x in m.get("prerun", [])]}
     if m.get("posthelp"):
         c["posthelp"] = True
+    if m.get("prespec") is not None:
+        c["prespec"] = m["prespec"]
     if m.get("rawbyte"):
         c["argv_hex"] = [t.encode().replace(RAWBYTE.encode(), b"\xff").hex() for t in m["argv"]]
     return c
